@@ -16,9 +16,38 @@ VERIF = extract.VERIF
 MUT = os.path.join(VERIF, "mutants")
 
 
+SEEDED = os.path.join(VERIF, "seeded")
+BENIGN = os.path.join(VERIF, "benign")
+
+
 def load_index():
+    """mutants/ (textual variants, each names the rule that must report it), seeded/ (changes written by
+    independent sub-agents, must be reported by a rule of the property they break) and benign/
+    (behaviour-preserving edits: every listed property must stay silent)."""
     with open(os.path.join(MUT, "index.json")) as fh:
-        return json.load(fh)["mutants"]
+        ms = json.load(fh)["mutants"]
+    for m in ms:
+        m["patch"] = os.path.join(MUT, m["name"] + ".patch")
+    if os.path.isdir(SEEDED):
+        for d in sorted(os.listdir(SEEDED)):
+            mp = os.path.join(SEEDED, d, "meta.json")
+            if not os.path.exists(mp):
+                continue
+            meta = json.load(open(mp))
+            prop = meta["breaks_property"]
+            own = sorted({c["rule"] for c in meta.get("checks_that_report_it", []) if c["rule"].startswith(prop + ".")})
+            if not own:
+                continue
+            ms.append({"name": "seeded-" + d, "property": prop, "rule": own[0], "configs": "dbg",
+                       "patch": os.path.join(SEEDED, d, "patch.diff")})
+    bi = os.path.join(BENIGN, "index.json")
+    if os.path.exists(bi):
+        for b in json.load(open(bi))["benign"]:
+            for prop in b["properties"]:
+                ms.append({"name": "benign-%s-%s" % (b["name"], prop), "property": prop, "rule": None,
+                           "configs": "dbg,rel", "patch": os.path.join(BENIGN, b["name"] + ".patch"),
+                           "expect": "silent"})
+    return ms
 
 
 def _scratch_copy(dst):
@@ -32,7 +61,7 @@ def run_one(m, worker=0, keep=False):
     th = None
     try:
         _scratch_copy(tmp)
-        patch = os.path.join(MUT, m["name"] + ".patch")
+        patch = m.get("patch") or os.path.join(MUT, m["name"] + ".patch")
         r = subprocess.run(["patch", "-p1", "--forward", "--batch", "-s", "-i", patch], cwd=tmp,
                            stdout=subprocess.PIPE, stderr=subprocess.STDOUT, text=True)
         if r.returncode != 0:
@@ -42,12 +71,19 @@ def run_one(m, worker=0, keep=False):
         env["VERIF_TGT_SUFFIX"] = "-st%d" % worker
         th, _ = extract.tree_hash(tmp)
         cfgs = m.get("configs", "dbg")
-        r = subprocess.run([sys.executable, os.path.join(VERIF, "check"), m["property"], "--rule", m["rule"],
-                            "--configs", cfgs], cwd=VERIF, env=env, stdout=subprocess.PIPE,
-                           stderr=subprocess.STDOUT, text=True)
+        cmd = [sys.executable, os.path.join(VERIF, "check"), m["property"], "--configs", cfgs, "--no-evidence"]
+        if m.get("rule"):
+            cmd += ["--rule", m["rule"]]
+        r = subprocess.run(cmd, cwd=VERIF, env=env, stdout=subprocess.PIPE, stderr=subprocess.STDOUT, text=True)
         out = r.stdout
         if r.returncode == 2:
             return {"name": m["name"], "status": "nobuild", "detail": out[-600:], "wall_s": time.time() - t0}
+        if m.get("expect") == "silent":
+            # behaviour-preserving edit: any report is a false alarm of the checker
+            st = "fired" if r.returncode == 0 else "silent"   # 'fired' = met its expectation
+            return {"name": m["name"], "status": st, "wall_s": time.time() - t0,
+                    "detail": "FALSE ALARM on a behaviour-preserving edit:\n" +
+                              "\n".join(l for l in out.splitlines() if "rule " in l and "instance" in l)[:900]}
         fired = r.returncode == 1 and ("rule %s " % m["rule"]) in out
         # a floor/anchor/crash report is not a detection of the seeded change
         real = [l for l in out.splitlines() if l.startswith("VIOLATION")]
@@ -115,7 +151,7 @@ def run_for_property(prop, out=sys.stdout):
 def baseline_ok(ms, out=sys.stdout):
     """The rules the variants name must pass on the unmodified tree, otherwise `fired` means nothing."""
     bad = set()
-    for prop, rule in sorted({(m["property"], m["rule"]) for m in ms}):
+    for prop, rule in sorted({(m["property"], m["rule"]) for m in ms if m.get("rule")}):
         r = subprocess.run([sys.executable, os.path.join(VERIF, "check"), prop, "--rule", rule, "--configs", "dbg"],
                            cwd=VERIF, stdout=subprocess.PIPE, stderr=subprocess.STDOUT, text=True)
         if r.returncode != 0:
